@@ -114,7 +114,7 @@ def comment_facts():
     from compare_locales.parser import base, defines, dtd, properties, ini
     v = ast.unparse(tree_of(base.OffsetComment.val.fget).body[0].body[-2])
     want = ("if self._val_cache is None:\n"
-            "    self._val_cache = ''.join((line[self.comment_offset:] for line in self.all.splitlines(True)))")
+            "    self._val_cache = '\\n'.join((line[self.comment_offset:] for line in self.all.split('\\n')))")
     expect(v == want, "OffsetComment.val is\n" + v)
     expect(properties.PropertiesParser.Comment is base.OffsetComment, "properties Comment is OffsetComment")
     expect(ini.IniParser.Comment is base.OffsetComment, "ini Comment is OffsetComment")
